@@ -181,8 +181,13 @@ class CommandsPipeline(Module):
         valids_hist = valids.r
         if extended_overlaps_check:
             valids_hist = Signal.like(valids.r)
-            for i in range(len(valids_hist)):
-                hist_before = valids_hist[max(0, i-n_previous):i]
+            # Commands actually sent during the previous cycle (registered, so that what has been
+            # masked by even older commands is not forgotten at the cycle boundary)
+            sent = Signal(nphases)
+            self.sync += sent.eq(valids_hist[nphases:])
+            self.comb += valids_hist[:nphases].eq(sent)
+            for i in range(nphases, len(valids_hist)):
+                hist_before = valids_hist[i-n_previous:i]
                 was_valid_before = reduce(or_, hist_before, 0)
                 self.comb += valids_hist[i].eq(valids.r[i] & ~was_valid_before)
 
